@@ -25,6 +25,8 @@ def validateG (v : View) (o : Oracle) : Geom → Bool
   | .point _ => true
   | .path ps => validatePath v o ps
   | .area ps => validateArea v ps
+  | .relation _ => true
+  | .collection _ => true
 
 theorem validate_eq (v : View) (o : Oracle) (f : Feature) : validate v o f = validateG v o f.geom := by
   unfold validate validateG; cases f.geom <;> rfl
@@ -41,6 +43,8 @@ theorem validateG_congr {v v' : View} (hl : v'.loc = v.loc) (hg : ∀ id, geomOf
     have := hg id
     simp only [geomOf] at this
     rw [this]
+  | relation ms => rfl
+  | collection ks => rfl
 
 /-! ## geometry and locations of a layered world -/
 
